@@ -444,3 +444,28 @@ package st
 //@   requires h != nil
 //@   modifies *
 //@   ensures [must-fail-address-foreign] result == old(h.quota)
+//@ func RangePrivate
+//@   props: S01
+//@   level: PA
+//@   opt: only=safe-idx
+//@   modifies *
+//@ func RangeEscaped
+//@   props: S01
+//@   level: PA
+//@   opt: only=safe-idx
+//@   modifies *
+//@ func RangeLent
+//@   props: S01
+//@   level: PA
+//@   opt: only=safe-idx
+//@   modifies *
+//@ func RangeStored
+//@   props: S01
+//@   level: PA
+//@   opt: only=safe-idx
+//@   modifies *
+//@ func RangeValue
+//@   props: S01
+//@   level: PA
+//@   opt: only=safe-idx
+//@   modifies *
